@@ -50,19 +50,19 @@ type WriteFault struct {
 }
 
 type StreamCfg struct {
-	Mode                string      `json:"mode"` // roundtrip, structure, totality
-	Forest              []NodeSpec  `json:"forest,omitempty"`
-	HasBOM              bool        `json:"has_bom,omitempty"`
-	Segments            []string    `json:"segments,omitempty"` // input bytes, one rune per byte, split after line ends
-	AllowMultiLine      bool        `json:"allow_multi_line,omitempty"`
-	AllowInvalidIndents bool        `json:"allow_invalid_indents,omitempty"`
-	Plans               []ReadPlan  `json:"plans,omitempty"`
-	AllTruncations      bool        `json:"all_truncations,omitempty"`
-	AllReadErrors       bool        `json:"all_read_errors,omitempty"`
-	AllWriteFaults      bool        `json:"all_write_faults,omitempty"`
+	Mode                string       `json:"mode"` // roundtrip, structure, totality
+	Forest              []NodeSpec   `json:"forest,omitempty"`
+	HasBOM              bool         `json:"has_bom,omitempty"`
+	Segments            []string     `json:"segments,omitempty"` // input bytes, one rune per byte, split after line ends
+	AllowMultiLine      bool         `json:"allow_multi_line,omitempty"`
+	AllowInvalidIndents bool         `json:"allow_invalid_indents,omitempty"`
+	Plans               []ReadPlan   `json:"plans,omitempty"`
+	AllTruncations      bool         `json:"all_truncations,omitempty"`
+	AllReadErrors       bool         `json:"all_read_errors,omitempty"`
+	AllWriteFaults      bool         `json:"all_write_faults,omitempty"`
 	WriteFaults         []WriteFault `json:"write_faults,omitempty"`
-	PipeCap             int         `json:"pipe_cap,omitempty"`
-	PipeChunk           int         `json:"pipe_chunk,omitempty"`
+	PipeCap             int          `json:"pipe_cap,omitempty"`
+	PipeChunk           int          `json:"pipe_chunk,omitempty"`
 }
 
 func bytesToSegs(b []byte) []string {
